@@ -4,6 +4,7 @@ from hypothesis import strategies as st
 
 BOOL_IDS = ["a", "b", "c", "d", "e", "f", "g", "h"]
 INT_IDS = ["i0", "i1", "i2", "i3"]
+CONCAT_IDS = ["a", "b", "ab", "c", "bc", "abc"]
 ODD_IDS = ["Zz", "0k", "_u", "~w", "Ab", "å"]     # sort before / between / after the compound ids (N.., R.., VAR..)
 
 DIRECT = ("AtLeast", "AtMost", "All", "Any")
@@ -22,7 +23,11 @@ def leaf_pool(draw, profile="small", allow_const=False, max_bool=5, max_int=3, m
         nb = min_leaves - ni
     pool = []
     bool_ids = list(BOOL_IDS)
-    if odd_ids and draw(st.integers(0, 3)) == 0:
+    if odd_ids and draw(st.integers(0, 7)) == 0:
+        # leaf names that concatenate into one another (generated ids digest the CONCATENATED child ids + value + sign, so
+        # Any(a, b) and the single-atom wrapper of 'ab' get the same generated id)
+        bool_ids = list(draw(st.permutations(CONCAT_IDS))) + bool_ids
+    elif odd_ids and draw(st.integers(0, 3)) == 0:
         # ids that sort before / after the ids of compound propositions (sub propositions are kept sorted by id)
         k = draw(st.integers(1, len(ODD_IDS)))
         bool_ids = list(draw(st.permutations(ODD_IDS)))[:k] + bool_ids
@@ -441,6 +446,38 @@ def shared_depth_shapes(slice_i=0, n_slices=1):
                     if i % n_slices == slice_i:
                         yield {"shared": [g], "root": r}
                     i += 1
+
+
+def concat_shapes(slice_i=0, n_slices=1):
+    """mixed atom/compound nodes over leaf names that concatenate into one another: a value-1 node with a compound child and
+    the atoms (a, b) - whose negation groups the atoms into one helper +(a,b)>=1 - next to a mixed node holding the atom 'ab'
+    (helper +(ab)>=1), and the (a, bc) / (ab, c) variant. Helpers made while a negation is pushed inwards then carry equal
+    generated ids although they are different propositions."""
+    L = lambda i: {"k": "leaf", "id": i, "b": [0, 1]}
+    i = 0
+    for atoms1, atoms2 in ((["a", "b"], ["ab"]), (["a", "bc"], ["ab", "c"]), (["ab", "c"], ["abc"]), (["a", "b", "c"], ["ab", "c"])):
+        for k1 in ("Any", "AtLeast1"):
+            for inner in ("All", "Any"):
+                x = {"k": "Any" if k1 == "Any" else "AtLeast", "id": "A", "c": [{"k": inner, "id": "B", "c": [L("p"), L("q")]}] + [L(s) for s in atoms1]}
+                if k1 != "Any":
+                    x["v"], x["s"] = 1, 1
+                y = {"k": "All", "id": "C", "c": [L("r"), L("s")]}
+                for root_kind, v in (("AtLeast", 1), ("AtLeast", 2), ("AtLeast", 3), ("All", None), ("Any", None)):
+                    for with_y in (True, False):
+                        for z_in_sub in (False, True):
+                            second = [L(s) for s in atoms2]
+                            if z_in_sub:
+                                # the atoms of the second group sit in a value-1 mixed node of their own
+                                second = [{"k": "Any", "id": "D", "c": [{"k": "All", "id": "E", "c": [L("u"), L("w")]}] + second}]
+                            ch = [x] + second + ([y] if with_y else [])
+                            root = {"k": root_kind, "id": "M", "c": ch}
+                            if root_kind == "AtLeast":
+                                if v > len(ch):
+                                    continue
+                                root["v"], root["s"] = v, 1
+                            if i % n_slices == slice_i:
+                                yield root
+                            i += 1
 
 
 def with_fixed_leaf(spec, leaf_id, value):
